@@ -163,6 +163,48 @@ def mutate_json(rng, j):
     return j
 
 
+def mutate_step_json(rng, j):
+    """one malformed variant of a step's JSON: a missing / mistyped field"""
+    j = copy.deepcopy(j)
+    ints = [k for k in ("from", "to", "gapFrom", "gapTo", "insert", "pos") if k in j]
+    r = rng.random()
+    if r < 0.15:
+        del j["stepType"]
+    elif r < 0.25:
+        j["stepType"] = rng.choice(["nosuchstep", 5, None, ""])
+    elif r < 0.6 and ints:
+        k = rng.choice(ints)
+        v = rng.choice(["3", None, "del", [1], {"a": 1}])
+        if v == "del":
+            del j[k]
+        else:
+            j[k] = v
+    elif r < 0.75 and "mark" in j:
+        if rng.random() < 0.5:
+            del j["mark"]
+        else:
+            j["mark"] = {"type": "nosuchmark"}
+    elif r < 0.9 and "attr" in j:
+        v = rng.choice([5, None, "del"])
+        if v == "del":
+            del j["attr"]
+        else:
+            j["attr"] = v
+    elif "slice" in j:
+        j["slice"] = rng.choice([{"content": None}, {"content": [{"type": "nosuchtype"}]}, {"openStart": 1}])
+    else:
+        j["stepType"] = "nosuchstep"
+    return j
+
+
+def decode_step_case(fam, j):
+    info = info_for(fam)
+    sc = gen.family(fam)
+    bt = res(lambda: Step.from_json(sc, rt(j)), lambda st: S.step_term(info, st))
+    return Case(coq=f"CDecodeStep @S@ {js(j)} {bt}", desc={"case": "decode-step", "family": fam, "json": j, "obs": bt[:60]},
+                schema=info.schema_term(), kind="malformed-step-json/" + bt[:14], nontrivial=False)
+
+
 def generate(rng: random.Random, tier: str):
     quick = tier == "quick"
     for fam in gen.FAMILY:
@@ -202,6 +244,14 @@ def generate(rng: random.Random, tier: str):
                 bt = res(lambda: Node.from_json(sc, rt(j)), info.node)
                 yield Case(coq=f"CDecode @S@ {js(j)} {bt}", desc={"case": "decode", "family": fam, "json": j, "obs": bt[:60]},
                            schema=info.schema_term(), kind="malformed-json/" + bt[:14], nontrivial=False)
+    # malformed step JSON (appended stream): a missing or mistyped field of every step type; the decoder's answer - the
+    # step, or the class of the exception - must be the model's
+    for fam in gen.FAMILY:
+        g, docs = S.family_docs(rng, fam, 4 if quick else 30)
+        for doc in docs:
+            for _ in range(10 if quick else 30):
+                st = S.adversarial_step(rng, g, doc, docs)
+                yield decode_step_case(fam, mutate_step_json(rng, rt(st.to_json())))
 
 
 def rebuild(desc):
@@ -211,6 +261,8 @@ def rebuild(desc):
         return node_case(desc["family"], Node.from_json(sc, desc["node"]), desc["kind"])
     if k == "slice":
         return slice_case(desc["family"], gen.slice_from_json(sc, desc["slice"]), desc["kind"])
+    if k == "decode-step":
+        return decode_step_case(desc["family"], desc["json"])
     if k == "step":
         return step_case(desc["family"], Node.from_json(sc, desc["doc"]), S.step_from_desc(sc, desc["step"]), desc["kind"])
     raise NotImplementedError
